@@ -8248,3 +8248,302 @@ func ruleCroltTidOwn(w *World, r *Report) {
 		r.ok("CROLT-TID-OWN", key, w.PosOf(clear), "a new job starts without a time-index entry")
 	}
 }
+
+// passesSource: every return of fn accepted by countRet lies behind a call for which isSource holds, or behind a call
+// of a rulio function of which that is true (two levels).
+func passesSource(w *World, fn *ssa.Function, isSource func(*ssa.CallCommon) bool, countRet func(ssa.Instruction) bool, depth int) (bool, ssa.Instruction) {
+	if fn == nil || len(fn.Blocks) == 0 {
+		return false, nil
+	}
+	isB := func(in ssa.Instruction) bool {
+		c := callOf(in)
+		if c == nil {
+			return false
+		}
+		if isSource(c) {
+			return true
+		}
+		if depth > 0 {
+			if f := c.StaticCallee(); f != nil && f != fn && w.IsRulio(f) {
+				if ok, _ := passesSource(w, f, isSource, countRet, depth-1); ok {
+					return true
+				}
+			}
+		}
+		return false
+	}
+	isRet := func(in ssa.Instruction) bool {
+		_, ok := in.(*ssa.Return)
+		return ok && (countRet == nil || countRet(in))
+	}
+	if h, _ := reach(fn, nil, isRet, isB, nil); h != nil {
+		return false, h
+	}
+	return true, nil
+}
+
+// STATE-FRESH (C01, C09, C10, C19): what a location says about itself is what its state says now.
+func ruleStateFresh(prop string) ruleFn {
+	return func(w *World, r *Report) {
+		r.Rule("STATE-FRESH", "a location's parents, its keys, its `enabled` switch and the `disabled` flag of a rule are facts (properties) in its state, and every writer of facts can change them: SetParents and SetProp, but also the plain fact API (AddFact(\"\", {\"!parents\": [...]}), RemFact(\"!.readKey\")), a rule's action, a ttl that runs out, a reload.  The functions that answer those questions therefore ask the state on every call: every return of Location.getParents / Enabled / RuleEnabled, and every `allowed` return of CheckRead / CheckWrite, lies behind a property lookup (GetProp / GetPropString / State.Get) made in that call.  An answer remembered in the Location object (a parsed parent list, a `no key` flag) is invalidated only by the writers that know about it — the others go on being dispatched to former ancestors, or past a key that was just installed", 4)
+		isLookup := func(c *ssa.CallCommon) bool {
+			if f := c.StaticCallee(); f != nil && f.Pkg != nil && w.RelPkg(f) == "core" {
+				switch f.Name() {
+				case "GetProp", "GetPropString":
+					return true
+				}
+			}
+			if c.IsInvoke() && c.Method.Name() == "Get" {
+				if n := namedOf(c.Value.Type()); n != nil && n.Obj().Name() == "State" {
+					return true
+				}
+			}
+			return false
+		}
+		type row struct {
+			name   string
+			okOnly bool
+			asks   string
+		}
+		for _, rw := range []row{
+			{"getParents", false, "the `parents` property"},
+			{"Enabled", false, "the `enabled` property"},
+			{"RuleEnabled", true, "the rule's `disabled` property"},
+			{"CheckRead", true, "the read key"},
+			{"CheckWrite", true, "the write key"},
+		} {
+			fn := w.TryMethod("core", "Location", rw.name)
+			key := "fn=(*core.Location)." + rw.name
+			if fn == nil {
+				r.exempt("STATE-FRESH", key, "", "method not found: not decided")
+				continue
+			}
+			var count func(ssa.Instruction) bool
+			if rw.okOnly {
+				count = isSuccessReturnPS
+			}
+			if ok, at := passesSource(w, fn, isLookup, count, 2); ok {
+				r.ok("STATE-FRESH", key, w.Pos(fn.Pos()), "asks the state for "+rw.asks+" on every call")
+			} else {
+				r.violation("STATE-FRESH", key, w.PosOf(at), "answers without asking the state for "+rw.asks+": a value remembered from an earlier call survives every writer that does not know about the memory (the plain fact API, actions, expiry, reload)")
+			}
+		}
+		// the ancestor walk: each parent is resolved through the provider in this walk
+		da := w.TryMethod("core", "Location", "doAncestors")
+		if da == nil {
+			return
+		}
+		key := "fn=" + fname(da)
+		isProvider := func(c *ssa.CallCommon) bool {
+			return c.IsInvoke() && c.Method.Name() == "GetLocation"
+		}
+		n := 0
+		var bad ssa.Instruction
+		allInstrs(da, func(in ssa.Instruction) {
+			c := callOf(in)
+			if c == nil || c.StaticCallee() != da || len(c.Args) == 0 {
+				return
+			}
+			n++
+			fresh := dependsOn(c.Args[0], func(v ssa.Value) bool {
+				cc, ok := v.(*ssa.Call)
+				if !ok {
+					return false
+				}
+				if isProvider(cc.Common()) {
+					return true
+				}
+				if f := cc.Common().StaticCallee(); f != nil && w.IsRulio(f) && f != da {
+					ok, _ := passesSource(w, f, isProvider, isSuccessReturnPS, 1)
+					return ok
+				}
+				return false
+			})
+			if !fresh && bad == nil {
+				bad = in
+			}
+		})
+		switch {
+		case n == 0:
+			r.exempt("STATE-FRESH", key, w.Pos(da.Pos()), "the ancestor walk does not recurse: shape not recognised, not decided")
+		case bad != nil:
+			r.violation("STATE-FRESH", key, w.PosOf(bad), "the walk goes on in a parent Location that it did not get from the provider in this walk: when the System hands out a new object for that name (the parent was deleted and created again, its cache entry expired), the child keeps searching and dispatching against the old one")
+		default:
+			r.ok("STATE-FRESH", key, w.Pos(da.Pos()), "every parent is resolved through the provider in each walk")
+		}
+	}
+}
+
+// CLOCK-UNITS (C07, C02): expiry is judged in seconds.
+func ruleClockUnits(prop string) ruleFn {
+	return func(w *World, r *Report) {
+		r.Rule("CLOCK-UNITS", "`expires` is UNIX seconds, and checkExpiration / notAfter / the expire helpers compare it with the `now` they are given (0: read the clock yourself).  core has three clocks: Now() in nanoseconds, NowMicros(), NowSecs().  Every non-constant `now` handed to those functions derives from NowSecs() or time.Time.Unix(), never from Now() / NowMicros() / UnixNano(): in nanoseconds every lease, however long, lies in the past", 3)
+		targets := map[*ssa.Function]int{}
+		for _, name := range []string{"checkExpiration", "notAfter"} {
+			if f := w.TryFunc("core", name); f != nil {
+				// the int64 parameter after the fact / seconds
+				targets[f] = len(f.Params) - 1
+			}
+		}
+		for _, tn := range []string{"IndexedState", "LinearState"} {
+			if f := w.TryMethod("core", tn, "expire"); f != nil {
+				targets[f] = len(f.Params) - 1
+			}
+		}
+		if f := w.TryFunc("core", "Expire"); f != nil {
+			for i, p := range f.Params {
+				if b, ok := p.Type().Underlying().(*types.Basic); ok && b.Kind() == types.Int64 {
+					targets[f] = i
+				}
+			}
+		}
+		isCoarse := func(v ssa.Value) bool {
+			c, ok := v.(*ssa.Call)
+			if !ok || c.Common().StaticCallee() == nil {
+				return false
+			}
+			f := c.Common().StaticCallee()
+			return f.Name() == "NowSecs" || (f.Name() == "Unix" && f.Pkg != nil && f.Pkg.Pkg.Path() == "time")
+		}
+		isFine := func(v ssa.Value) bool {
+			c, ok := v.(*ssa.Call)
+			if !ok || c.Common().StaticCallee() == nil {
+				return false
+			}
+			f := c.Common().StaticCallee()
+			if f.Pkg != nil && f.Pkg.Pkg.Path() == "time" {
+				return f.Name() == "UnixNano" || f.Name() == "UnixMicro" || f.Name() == "UnixMilli"
+			}
+			return w.RelPkg(f) == "core" && (f.Name() == "Now" || f.Name() == "NowMicros")
+		}
+		n := 0
+		for _, fn := range w.Funcs {
+			if !w.IsRulio(fn) || isTestFile(w, fn) {
+				continue
+			}
+			allInstrs(fn, func(in ssa.Instruction) {
+				c := callOf(in)
+				if c == nil || c.StaticCallee() == nil {
+					return
+				}
+				idx, ok := targets[c.StaticCallee()]
+				if !ok || idx >= len(c.Args) {
+					return
+				}
+				arg := c.Args[idx]
+				if _, isC := arg.(*ssa.Const); isC {
+					return
+				}
+				if _, isP := arg.(*ssa.Parameter); isP {
+					return // handed on: decided at the caller
+				}
+				n++
+				key := "call=" + fname(fn) + "->" + c.StaticCallee().Name()
+				switch {
+				case dependsOn(arg, isFine):
+					r.violation("CLOCK-UNITS", key, w.PosOf(in), "expiry is judged against a clock in nanoseconds / microseconds: every item with an `expires` has expired")
+				case dependsOn(arg, isCoarse):
+					r.ok("CLOCK-UNITS", key, w.PosOf(in), "judged in seconds")
+				default:
+					r.ok("CLOCK-UNITS", key, w.PosOf(in), "not derived from a clock in finer units")
+				}
+			})
+		}
+		r.stat("CLOCK-UNITS.sites", n)
+	}
+}
+
+// SCHEDULE-REGISTERS (C15): a schedule request that is acknowledged has registered a job.
+func ruleScheduleRegisters(w *World, r *Report) {
+	r.Rule("SCHEDULE-REGISTERS", "the add hook takes a nil from Cronner.ScheduleEvent for `the job is registered` (HOOK-ADD).  In each Cronner implementation every success return of ScheduleEvent and Schedule lies behind the call that registers the job — Cron.Add for the in-memory cron, the HTTP request for crolt.  An early `nothing to do` (the same schedule is pending already) skips the registration of the job *function*, which closes over the Location object of the request: a location that is loaded a second time keeps ticking in the object of the first load", 2)
+	n := 0
+	for _, tn := range []string{"InternalCron", "CroltSimple"} {
+		nt := w.TryNamed("cron", tn)
+		if nt == nil {
+			continue
+		}
+		for _, mn := range []string{"ScheduleEvent", "Schedule"} {
+			fn := w.TryMethod("cron", tn, mn)
+			if fn == nil {
+				continue
+			}
+			n++
+			key := "fn=" + fname(fn)
+			isReg := func(c *ssa.CallCommon) bool {
+				f := c.StaticCallee()
+				if f == nil {
+					return false
+				}
+				if f.Name() == "Add" && f.Signature.Recv() != nil {
+					if rn := namedOf(f.Signature.Recv().Type()); rn != nil && rn.Obj().Name() == "Cron" {
+						return true
+					}
+				}
+				if f.Name() == "Do" && f.Signature.Recv() != nil {
+					if rn := namedOf(f.Signature.Recv().Type()); rn != nil && rn.Obj().Name() == "HTTPRequest" {
+						return true
+					}
+				}
+				return false
+			}
+			if ok, at := passesSource(w, fn, isReg, isSuccessReturnPS, 2); ok {
+				r.ok("SCHEDULE-REGISTERS", key, w.Pos(fn.Pos()), "every acknowledged request has registered the job")
+			} else {
+				r.violation("SCHEDULE-REGISTERS", key, w.PosOf(at), "a schedule request is acknowledged without the job having been registered")
+			}
+		}
+	}
+	if n == 0 {
+		r.exempt("SCHEDULE-REGISTERS", "pkg=cron", "", "no Cronner implementation found: not decided")
+	}
+}
+
+// UNMARSHAL-FRESH (C16): a record decoded in a loop is decoded into a value of its own.
+func ruleUnmarshalFresh(w *World, r *Report) {
+	r.Rule("UNMARSHAL-FRESH", "encoding/json leaves a field of the destination as it is when the input does not mention it, and crolt's jobs are written with `omitempty` (once, evict, ...).  A polling pass decodes one stored job after the other: the destination of every json.Unmarshal that sits in a loop is allocated in that loop — a destination that outlives the iteration hands the previous job's `evict` to the next one, which is then deleted without having fired", 1)
+	n := 0
+	for _, fn := range w.Funcs {
+		if w.RelPkg(fn) != "crolt" || isTestFile(w, fn) {
+			continue
+		}
+		allInstrs(fn, func(in ssa.Instruction) {
+			c := callOf(in)
+			if c == nil || c.StaticCallee() == nil || c.StaticCallee().Pkg == nil || c.StaticCallee().Pkg.Pkg.Path() != "encoding/json" || c.StaticCallee().Name() != "Unmarshal" || len(c.Args) != 2 {
+				return
+			}
+			// in a loop?
+			b := in.Block()
+			inLoop := false
+			for _, sb := range b.Succs {
+				if sb == b || blockReaches(sb, b, nil) {
+					inLoop = true
+				}
+			}
+			if !inLoop {
+				return
+			}
+			dst := c.Args[1]
+			if mi, ok := dst.(*ssa.MakeInterface); ok {
+				dst = mi.X
+			}
+			al, ok := resolveSpill(dst).(*ssa.Alloc)
+			if !ok {
+				// a closure variable or a field: not allocated here at all
+				if _, isFree := resolveSpill(dst).(*ssa.FreeVar); !isFree {
+					return
+				}
+			}
+			n++
+			key := "fn=" + fname(fn)
+			fresh := al != nil && blockReaches(b, al.Block(), nil) && blockReaches(al.Block(), b, nil)
+			if fresh {
+				r.ok("UNMARSHAL-FRESH", key, w.PosOf(in), "each record is decoded into a value of its own")
+			} else {
+				r.violation("UNMARSHAL-FRESH", key, w.PosOf(in), "the records of a pass are decoded into one value: a field that a record does not mention (omitempty: once, evict) keeps what the previous record had")
+			}
+		})
+	}
+	if n == 0 {
+		r.exempt("UNMARSHAL-FRESH", "pkg=crolt", "", "no json.Unmarshal in a loop found: not decided")
+	}
+}
